@@ -3,6 +3,7 @@ package whitespace
 import (
 	"fmt"
 	"strings"
+	"unicode/utf8"
 
 	"github.com/ajitpratap0/GoSQLX/pkg/linter"
 	"github.com/ajitpratap0/GoSQLX/pkg/models"
@@ -68,7 +69,8 @@ func (r *LongLinesRule) Check(ctx *linter.Context) ([]linter.Violation, error) {
 	violations := []linter.Violation{}
 
 	for lineNum, line := range ctx.Lines {
-		lineLength := len(line)
+		// characters, not bytes, and without the CR of a CRLF line ending
+		lineLength := utf8.RuneCountInString(strings.TrimSuffix(line, "\r"))
 
 		// Skip empty lines
 		if lineLength == 0 {
